@@ -90,23 +90,15 @@ Theorem C09_cmp_total_never_unc : forall rk a b, cmp_total rk a b <> OUn.
 Proof. exact cmp_total_never_unc. Qed.
 Print Assumptions C09_cmp_total_never_unc.
 
-(* agrees with compare wherever compare is defined, for values without sliced
-   lists *)
-Theorem C09_cmp_total_agrees_partial : forall rk a b,
-  has_sublist a = false -> has_sublist b = false ->
+(* agrees with compare wherever compare is defined (within each comparable
+   type), for all values: plain and sliced lists are one type *)
+Theorem C09_cmp_total_agrees : forall rk a b,
   cmp a b <> OUn -> cmp_total rk a b = cmp a b.
-Proof. exact cmp_total_agrees_partial. Qed.
-Print Assumptions C09_cmp_total_agrees_partial.
-
-(* FULL STATEMENT: the same for all values — false: a sliced list and a plain
-   list are two Go types, so two eq lists compare as different under &total *)
-Theorem C09_cmp_total_agrees_refuted :
-  exists a b, wf a /\ wf b /\ equal a b = true /\ cmp a b = OEq /\ cmp_total rk0 a b = OLt.
-Proof. exact cmp_total_agrees_refuted_w. Qed.
-Print Assumptions C09_cmp_total_agrees_refuted.
+Proof. exact cmp_total_agrees. Qed.
+Print Assumptions C09_cmp_total_agrees.
 
 (* a transitive total preorder that groups values by type: for every injective
-   order rk of the types (sliced and plain lists being two types), transitive
+   order rk of the types, transitive
    on values whose numbers are all exact resp. all floats *)
 Theorem C09_cmp_total_trans_exact : forall rk a b c,
   injective rk -> wf a -> wf b -> wf c ->
@@ -132,6 +124,7 @@ Print Assumptions C09_oracle_sound.
 (* non-vacuity *)
 Example C09_ex_orders :
   cmp (VList false [VInt 1; VRat (mkrat 1 2)]) (VList true [VInt 1; VBig (2 ^ 70)]) = OLt
+  /\ cmp_total rk0 (VList true [VStr [97]]) (VList false [VStr [97]]) = OEq
   /\ cmp (VStr [97]) (VStr [97; 0]) = OLt /\ cmp (VBool false) (VBool true) = OLt
   /\ cmp (VFloat 9221120237041090560) (VFloat f_neg_inf) = OLt   (* NaN < -Inf *)
   /\ cmp (VInt 1) (VStr [49]) = OUn /\ cmp_total rk0 (VInt 1) (VStr [49]) = OLt.
